@@ -716,25 +716,71 @@ LEAF_NUM = ["0", "1", "-5", "42", "3.25", "0.50", "1e5", "100", "922337203685477
 KEYS = ["a", "b", "c", "id", "x1", "val", "k", "m", "n", "name", "é", "p-q", "u_v", "K", "zz", "3", "10", "1x", "0", "2", "1"]
 
 
-def gen_shape(rng, depth, sep, top=False, allow_empty_str=True):
-    """A JSON shape with leaf slots; returns a function rng -> value so that records of one stream share the key list."""
+NUMERAL_FAMILIES = {
+    # keys that are numerals; only the EXACT texts "1".."n" in order are the documented array look-alike
+    "canonical": lambda i, n: str(i), "zero-pad-2": lambda i, n: "%02d" % i, "zero-pad-3": lambda i, n: "%03d" % i,
+    "zero-pad-mixed-width": lambda i, n: "0" * (i % 3) + str(i), "plus-signed": lambda i, n: "+%d" % i, "decimal-point": lambda i, n: "%d.0" % i,
+    "leading-space": lambda i, n: " %d" % i, "trailing-space": lambda i, n: "%d " % i, "hex": lambda i, n: "0x%x" % i,
+    "exponent": lambda i, n: "%de0" % i, "underscore": lambda i, n: "%d_" % i if i > 9 else "0_%d" % i,
+    "mixed-first-noncanonical": lambda i, n: ("0%d" % i) if i == 1 else str(i),
+    "mixed-last-noncanonical": lambda i, n: ("0%d" % i) if i == n else str(i),
+    "mixed-middle-plus": lambda i, n: ("+%d" % i) if i == (n + 1) // 2 else str(i),
+    "zero-based": lambda i, n: str(i - 1), "shuffled": lambda i, n: str(i % n + 1) if n > 1 else "2", "sparse": lambda i, n: str(2 * i - 1) if n > 1 else "3",
+    "two-based": lambda i, n: str(i + 1), "negative": lambda i, n: str(-i), "binary": lambda i, n: "0b" + bin(i)[2:],
+}
+
+
+def numeral_keys(family, n):
+    return [NUMERAL_FAMILIES[family](i, n) for i in range(1, n + 1)]
+
+
+def gen_shape(rng, depth, sep, top=False, allow_empty_str=True, family=None):
+    """A JSON shape with leaf slots, so that records of one stream share the key list. About a third of the maps are keyed by
+    numerals (canonical 1..n, non-canonical spellings of 1..n, 0-based, shuffled, sparse ...): the unflatten heuristic must turn
+    ONLY the exact texts "1".."n" in order back into an array."""
     x = rng.random()
     if depth > 0 and (top or x < 0.45):
         n = rng.choice([0, 1, 2, 2, 3, 4]) if not top else rng.choice([1, 2, 3, 5])
         if top or rng.random() < 0.55:
-            keys = []
+            keys, numeral = [], False
+            fam = family or (rng.choice(sorted(NUMERAL_FAMILIES)) if rng.random() < 0.35 else None)
+            if fam and n:
+                nk = numeral_keys(fam, rng.choice([1, 2, 3, 4, 11]) if rng.random() < 0.5 else n)
+                if len(set(nk)) == len(nk) and not any(sep in k for k in nk):
+                    keys, numeral = nk, True
             pool = [k for k in KEYS if sep not in k]
-            while len(keys) < n:
+            while not numeral and len(keys) < n:
                 k = rng.choice(pool)
                 if k not in keys:
                     keys.append(k)
-            if keys and [str(i + 1) for i in range(len(keys))] == keys:
-                keys[0] = "k" + keys[0]       # a map keyed "1".."n" is the documented array look-alike (checked separately)
             subs = [gen_shape(rng, depth - 1, sep, allow_empty_str=allow_empty_str) for _ in keys]
             return ("map", keys, subs)
         return ("arr", [gen_shape(rng, depth - 1, sep, allow_empty_str=allow_empty_str) for _ in range(n)])
     kinds = ["num", "str", "str", "bool"] + (["empty"] if allow_empty_str else [])
     return ("leaf", rng.choice(kinds))
+
+
+def focused_shape(rng, sep, family, allow_empty_str):
+    """One numeral-keyed map of the given family directly under a record field, one two levels down, one inside an array."""
+    leaf = lambda: ("leaf", rng.choice(["num", "str", "bool"]))
+    n1, n2, n3 = rng.choice([1, 2, 3]), rng.choice([2, 3, 4]), rng.choice([2, 11])
+    m = lambda n, sub: ("map", numeral_keys(family, n), [sub() for _ in range(n)])
+    inner = lambda: ("map", ["x", "y"], [leaf(), leaf()])
+    return ("map", ["id", "m", "deep", "arr", "tail"],
+            [leaf(), m(n2, leaf), ("map", ["q"], [m(n1 + 1, inner)]), ("arr", [m(n3, leaf), leaf()]), leaf()])
+
+
+def documented_unflatten(v, top=True):
+    """flatten-unflatten.md, auto-inferencing: a (nested) map whose keys are exactly "1".."n", starting with "1", consecutively
+    and with no gaps, comes back as an array; everything else comes back as it was."""
+    if isinstance(v, C.JObj):
+        kids = C.JObj((k, documented_unflatten(x, False)) for k, x in v)
+        if not top and kids and [k for k, _ in kids] == [str(i + 1) for i in range(len(kids))]:
+            return [x for _, x in kids]
+        return kids
+    if isinstance(v, list):
+        return [documented_unflatten(x, False) for x in v]
+    return v
 
 
 def fill_shape(shape, rng):
@@ -826,8 +872,16 @@ def nest_case(case):
     fmt, sep = case["fmt"], case["sep"]
     oflags, iflags = NEST_TABULAR[fmt]
     vdom = F.variant_by_name(fmt)
-    shape = gen_shape(rng, rng.choice([2, 3, 4]), sep, top=True, allow_empty_str=(fmt != "xtab"))
+    if case.get("family"):
+        if any(sep in k for k in numeral_keys(case["family"], 11)):
+            res = case_result(_h("nest-skip", fmt, sep, case["family"]), False, evals=0)
+            res["skipped"] += 1          # statement: keys free of the flatten separator
+            return res
+        shape = focused_shape(rng, sep, case["family"], fmt != "xtab")
+    else:
+        shape = gen_shape(rng, rng.choice([2, 3, 4]), sep, top=True, allow_empty_str=(fmt != "xtab"))
     recs = [fill_shape(shape, rng) for _ in range(rng.choice([1, 2, 3, 5]))]
+    expected = [documented_unflatten(r) for r in recs]
     res = case_result(_h("nest", fmt, sep, repr(recs)), False, evals=0)
     flat = [flatten_model(r, sep) for r in recs]
     # domain of the tabular hop
@@ -845,6 +899,9 @@ def nest_case(case):
     res["nontrivial"] = any(isinstance(x, list) or (isinstance(x, C.JObj) and (not x or any(isinstance(y, (list, C.JObj)) for _, y in x)))
                             for r in recs for _, x in r)
     bump(res, f"nest:{fmt}:{sep}")
+    if case.get("family"):
+        bump(res, "nest_numeral_family:" + case["family"])
+    sig_family = {"family": case["family"]} if case.get("family") else {}
     sepflag = [] if sep == "." else [rng.choice(["--flatsep", "--jflatsep"]), sep]
     jtext = C.write_json(recs, {"shape": rng.choice(["array", "lines"])})
     wargv = ["--ijson"] + oflags + sepflag + ["cat"]
@@ -886,16 +943,42 @@ def nest_case(case):
     if len(got) != len(recs):
         add_violation(res, dict(sig, kind="nest-identity", what="record-count"), f"JSON -> {fmt} -> JSON: {len(recs)} records became {len(got)}", det2)
         return res
-    for e, g in zip(recs, got):
+    ok = True
+    for e, g in zip(expected, got):
         d = tree_diff(e, g)
         if d:
+            ok = False
             code = next((c for c in ("map became", "array became", "array length", "keys", "scalar", "leaf text") if c in d), "other")
-            add_violation(res, dict(sig, kind="nest-identity", what=code),
-                          f"JSON -> {fmt} -> JSON (flatsep {sep!r}) is not the identity: {d}", dict(det2, stdout=_short(r.stdout, 3000)))
+            add_violation(res, dict(sig, kind="nest-identity", what=code, **sig_family),
+                          f"JSON -> {fmt} -> JSON (flatsep {sep!r}) is not the identity (only maps keyed exactly \"1\"..\"n\" may become arrays): {d}",
+                          dict(det2, stdout=_short(r.stdout, 3000)))
             break
-    else:
+    if ok:
         bump(res, "nest_identity_held")
         res["sample"] = {"monitor": "nest", "fmt": fmt, "sep": sep, "json": _short(jtext, 300), "tabular": _short(T, 300)}
+    # the same law through the verbs, without any tabular hop
+    vargv = ["--json", "flatten", "-s", sep, "then", "unflatten", "-s", sep]
+    r = R.mlr(vargv, stdin=jtext)
+    res["evals"] += 1
+    det3 = {"argv": vargv, "stdin": jtext}
+    if r.verdict == "slow":
+        res["inconc"] += 1
+    elif not r.ok:
+        add_violation(res, dict(sig, kind="nest-verbs-fail", **sig_family), f"flatten then unflatten failed rc={r.rc}: {r.err[:200]!r}", det3)
+    else:
+        try:
+            gotv = C.parse_json_records(r.stdout)
+        except C.CodecError as e:
+            gotv = None
+            add_violation(res, dict(sig, kind="nest-verbs-fail", **sig_family), f"flatten then unflatten: output not JSON: {e}", det3)
+        if gotv is not None:
+            dv = "record count" if len(gotv) != len(expected) else next((d for d in (tree_diff(e, g) for e, g in zip(expected, gotv)) if d), None)
+            if dv:
+                code = next((c for c in ("map became", "array became", "array length", "keys", "scalar", "leaf text", "record count") if c in dv), "other")
+                add_violation(res, dict(sig, kind="nest-verbs-identity", what=code, **sig_family),
+                              f"mlr --json flatten -s {sep!r} then unflatten -s {sep!r} is not the identity: {dv}", dict(det3, stdout=_short(r.stdout, 3000)))
+            else:
+                bump(res, "nest_verbs_identity_held")
     return res
 
 
@@ -940,6 +1023,12 @@ def nest_cases(chk):
         for fmt in ("xtab", "pprint", "csvlite"):
             for j in range(25):
                 cases.append({"fmt": fmt, "sep": FLATSEPS[j % 3], "seed": f"{chk.seed}/nest/{fmt}/{j}"})
+    # numeral-keyed maps: every tabular format x flatten separator x key family (top level of a field, nested, inside an array)
+    for fmt in NEST_TABULAR:
+        for sep in FLATSEPS:
+            for fam in sorted(NUMERAL_FAMILIES):
+                for j in range(1 if q else 4):
+                    cases.append({"fmt": fmt, "sep": sep, "family": fam, "seed": f"{chk.seed}/nestnum/{fmt}/{sep}/{fam}/{j}"})
     return cases
 
 
@@ -1003,8 +1092,9 @@ def run(chk):
     st = chk.stats
     chk.extra["conversion_paths_reached"] = len([k for k in st if k.startswith("conv_path:")])
     chk.extra["nest_format_x_separator_reached"] = sorted(k[5:] for k in st if k.startswith("nest:"))
+    chk.extra["nest_numeral_key_families_reached"] = {k[20:]: v for k, v in st.items() if k.startswith("nest_numeral_family:")}
     chk.extra["alias_entries_by_group"] = {k[14:]: v for k, v in st.items() if k.startswith("alias_entries:")}
-    for k in [k for k in st if k.split(":")[0] in ("conv_path", "nest", "alias_entries")]:
+    for k in [k for k in st if k.split(":")[0] in ("conv_path", "nest", "alias_entries", "nest_numeral_family")]:
         st.pop(k)
     chk.assumptions = [
         "conv: cells come from the C01 generator restricted to the conjunction of the formats' C01 domain predicates; character classes on which a "
@@ -1017,7 +1107,8 @@ def run(chk):
         "conv: when YAML is read on the path records are compared as unordered key/value sets (the YAML reader sorts keys: C01-F6)",
         "conv: records are compared through --ojson --jvquoteall --no-auto-unflatten (key list, order, value text), the comparison C01 validates per format",
         "nest: keys non-empty and free of the flatten separator; no JSON null leaves (their tabular text is not documented); string leaves are not '{}' or '[]' "
-        "(the sentinels of empty collections); a map whose keys are exactly \"1\"..\"n\" in order is generated only in the documented-limit cases; leaves "
+        "(the sentinels of empty collections); a nested map whose keys are exactly the texts \"1\"..\"n\" in order is expected back as an array "
+        "(documented heuristic) and every other numeral-keyed map (zero-padded, signed, 1.0, spaces, hex, exponent, mixed, 0-based, shuffled, sparse) as a map; leaves "
         "restricted to the tabular format's C01 domain",
         "alias: expansions are computed from the text the binary prints (`help flag` sentence, legend, matrix position, 'Keystroke-saver for' sentence, "
         "the alias table's right-hand column) and from file-formats.md / customization.md; separator values are additionally compared with a hard-coded "
